@@ -295,7 +295,8 @@ Fixpoint node_rows_p (known : list nat) (l : list fp_msg) : list fprow * bool :=
       | None => ([], false)
       | Some n =>
           let '(rows, ok) := node_rows_p known r in
-          ((if memb n known then {| fp_node := n; fp_time := fm_time m; fp_dist := fm_dist m |} :: rows else rows), ok)
+          ((if memb n known && (0 <=? fm_time m)
+            then {| fp_node := n; fp_time := fm_time m; fp_dist := fm_dist m |} :: rows else rows), ok)
       end
   end.
 
